@@ -1692,7 +1692,7 @@ MANIFEST = dict(
     'decided by replay + bounded witness search); n>0, fc>0 assumed; 1-D '
     'arrays of 2, 2-D arrays up to 2x3; dtype/layout/aliasing only through '
     'concrete probes on sampled inputs; shadowing excluded'
-    ' Concrete data-representation / scale / boundary probes of the real'
+    '. Concrete data-representation / scale / boundary probes of the real'
     ' code (dtype, container and memory-layout variants, argument'
     ' immutability, magnitudes) accompany the symbolic runs; they are'
     ' differential runs, not solver verdicts.',
